@@ -3,7 +3,10 @@
 package harfbuzz
 
 import (
+	"bytes"
+
 	"github.com/go-text/typesetting/font"
+	ot "github.com/go-text/typesetting/font/opentype"
 	"github.com/go-text/typesetting/font/opentype/tables"
 )
 
@@ -793,5 +796,139 @@ func VfH_C01_longcontext() {
 		return c.applyRecurseLookup(li, lookupGPOS(nested[li]))
 	}
 	lookupGPOS(lk).dispatchApply(&c)
+	vfReach("end")
+}
+
+// H-C01-malformed-gpos: GPOS subtables whose coverage lists MORE glyphs than the arrays they index
+// (entry/exit records, pair sets, value records, mark and base arrays, mark2 records), whose mark class
+// exceeds the class count, or whose (chained) context record names a lookup the font does not have, stored directly or behind an Extension lookup, inside a minimal font file
+// (cmap, head, maxp, GPOS written by the real WriteTTF) that goes through the real font.NewFont: either the
+// loader drops the table, or applying the loaded lookup at the last covered glyph is total.
+func vfMalformedSubtable(which int) (lookupType uint16, w []uint16, cur GID) {
+	cur = 2 // the second glyph of the coverage
+	switch which {
+	case 0: // cursive: coverage {1,2}, one entry/exit record
+		w = []uint16{1, 10, 1, 18, 24}
+		w = append(w, vfCov(1, 2)...) // at 10
+		w = append(w, 1, 5, 7)        // at 18
+		w = append(w, 1, 50, 70)      // at 24
+		return 3, w, cur
+	case 1: // pair format 1: coverage {1,2}, one pair set
+		w = []uint16{1, 18, 0x0004, 0, 1, 12, 1, 2, vfNeg(-50)}
+		w = append(w, vfCov(1, 2)...)
+		return 2, w, cur
+	case 2: // single format 2: coverage {1,2}, one value record
+		w = []uint16{2, 10, 0x0004, 1, vfNeg(-30)}
+		w = append(w, vfCov(1, 2)...)
+		return 1, w, cur
+	case 3: // mark-to-base: mark coverage {2,3}, one mark record
+		w = []uint16{1, 12, 20, 1, 28, 40}
+		w = append(w, vfCov(2, 3)...)
+		w = append(w, vfCov(1, 5)...)
+		w = append(w, 1, 0, 6, 1, 10, 20)
+		w = append(w, 2, 6, 12, 1, 100, 200, 1, 300, 400)
+		return 4, w, 3
+	case 4: // mark-to-base: base coverage {1,5}, one base record
+		w = []uint16{1, 12, 18, 1, 26, 38}
+		w = append(w, vfCov(3)...)
+		w = append(w, vfCov(1, 5)...)
+		w = append(w, 1, 0, 6, 1, 10, 20)
+		w = append(w, 1, 4, 1, 100, 200)
+		return 4, w, 3
+	case 5: // mark-to-base: mark class 3 with one class
+		w = []uint16{1, 12, 18, 1, 26, 38}
+		w = append(w, vfCov(3)...)
+		w = append(w, vfCov(1, 5)...)
+		w = append(w, 1, 3, 6, 1, 10, 20)
+		w = append(w, 2, 6, 12, 1, 100, 200, 1, 300, 400)
+		return 4, w, 3
+	case 6: // mark-to-mark: mark2 coverage {5,6}, one mark2 record
+		w = []uint16{1, 12, 18, 1, 26, 38}
+		w = append(w, vfCov(3)...)
+		w = append(w, vfCov(5, 6)...)
+		w = append(w, 1, 0, 6, 1, 10, 20)
+		w = append(w, 1, 4, 1, 100, 200)
+		return 6, w, 3
+	case 7: // chained context format 3: input {2}, one record pointing to lookup 5 (the font has one lookup)
+		w = []uint16{3, 0, 1, 16, 0, 1, 0, 5}
+		w = append(w, vfCov(2)...)
+		return 8, w, cur
+	default: // context format 3: input {2}, one record pointing to lookup 5
+		w = []uint16{3, 1, 1, 12, 0, 5}
+		w = append(w, vfCov(2)...)
+		return 7, w, cur
+	}
+}
+
+func vfMinimalFontWithGPOS(lookupType uint16, sub []uint16, extension bool) []byte {
+	if extension {
+		sub = append([]uint16{1, lookupType, 0, 8}, sub...) // ExtensionPos format 1
+		lookupType = 9
+	}
+	gpos := []uint16{1, 0, 10, 12, 14, // header: script list at 10, feature list at 12, lookup list at 14
+		0,    // script list
+		0,    // feature list
+		1, 4, // lookup list: one lookup at +4
+		lookupType, 0, 1, 8} // lookup: type, flag, one subtable at +8
+	gpos = append(gpos, sub...)
+	cmap := []uint16{0, 1, 3, 1, 0, 12, // one (3,1) record at offset 12
+		4, 24, 0, 2, 2, 0, 0, 0xFFFF, 0, 0xFFFF, 1, 0}
+	head := make([]byte, 54)
+	head[18], head[19] = 0x03, 0xE8 // unitsPerEm 1000
+	maxp := []byte{0, 0, 0x50, 0, 0, 8}
+	return ot.WriteTTF([]ot.Table{
+		{Tag: ot.MustNewTag("GPOS"), Content: vfWords(gpos...)},
+		{Tag: ot.MustNewTag("cmap"), Content: vfWords(cmap...)},
+		{Tag: ot.MustNewTag("head"), Content: head},
+		{Tag: ot.MustNewTag("maxp"), Content: maxp},
+	})
+}
+
+func VfH_C01_malformed_gpos() {
+	which := vfChoice("table", 9)
+	extension := vfChoice("extension", 2) == 1
+	lookupType, sub, cur := vfMalformedSubtable(which)
+	file := vfMinimalFontWithGPOS(lookupType, sub, extension)
+	ld, err := ot.NewLoader(bytes.NewReader(file))
+	if err != nil {
+		panic("harness: font file does not load")
+	}
+	ft, err := font.NewFont(ld)
+	if err != nil {
+		panic("harness: minimal font rejected")
+	}
+	vfCover("loaded", len(ft.GPOS.Lookups) == 1)
+	vfCover("dropped", len(ft.GPOS.Lookups) == 0)
+	if len(ft.GPOS.Lookups) == 0 {
+		vfReach("end")
+		return
+	}
+	lk := ft.GPOS.Lookups[0]
+	// the current glyph is the last covered one; its neighbours are the last glyphs of the other coverages
+	prev := GID(5)
+	if which == 6 {
+		prev = 6
+	}
+	glyphs := []vfStepGlyph{{gid: prev, props: tables.GPBaseGlyph}, {gid: cur, props: tables.GPBaseGlyph}, {gid: 2, props: tables.GPBaseGlyph}}
+	if which >= 3 && which <= 6 {
+		glyphs[1].props = tables.GPMark
+	}
+	if which == 6 {
+		glyphs[0].props = tables.GPMark
+	}
+	for i := range glyphs {
+		glyphs[i].cluster = i
+	}
+	// as applyForward does for one position, with the real recursion into the font's own lookup list
+	buf := vfStringBuffer(glyphs, LeftToRight)
+	buf.idx = 1
+	var c otApplyContext
+	c.reset(1, NewFont(font.NewFace(ft)), buf)
+	c.recurseFunc = proxyGPOS.recurseFunc
+	c.setLookupMask(vfLookupMask)
+	c.setLookupProps(lookupGPOS(lk).Props())
+	if cur := buf.cur(0); c.checkGlyphProperty(cur, c.lookupProps) {
+		lookupGPOS(lk).dispatchApply(&c)
+	}
 	vfReach("end")
 }
